@@ -229,6 +229,15 @@ class Cache:
         ):
             return f"`{node.__class__.__name__.lower()}` after `slice_head`"
 
+        # After a `summarize` without grouping the table is one row of aggregates and
+        # there is no GROUP BY (recorded in `group_by`) that later verbs could use.
+        if (
+            isinstance(node, verbs.Filter | verbs.Summarize | verbs.Join | verbs.Union)
+            and not self.group_by
+            and any(col.ftype() == Ftype.AGGREGATE for col in self.cols.values())
+        ):
+            return f"`{node.__class__.__name__.lower()}` after `summarize` without grouping"
+
         if (
             isinstance(node, verbs.Mutate)
             and self.limit is not None
